@@ -118,7 +118,9 @@ class Prog:
         attr = f"#[::entrait::entrait({ATTR[p['opt']]}{', no_deps' if p['deps'] == 'nodeps' else ''})]"
         if p["mode"] == "fn":
             return f"{attr}\n{self.fn_text(1)}\n"
-        fns = "\n".join("    " + self.fn_text(i, vis="pub ").replace("\n", "\n    ") for i in range(1, p["nfn"] + 1))
+        # (rev: the functions are written in descending name order, so that source order is not alphabetical order)
+        order = range(p["nfn"], 0, -1) if p.get("rev") else range(1, p["nfn"] + 1)
+        fns = "\n".join("    " + self.fn_text(i, vis="pub ").replace("\n", "\n    ") for i in order)
         return f"{attr}\npub mod m {{\n{fns}\n}}\n"
 
     # ---- scenarios
